@@ -238,6 +238,7 @@ def _gen_case(rng: random.Random) -> dict:
             if disk or files:
                 ops.append(['query', _gen_query(rng, disk or files)])
 
+    budget = [8 - nshare - 1]          # histories stay within 8 share operations (one kept for the final scan)
     for i in range(nshare):
         r = rng.random()
         if not shared or r < 0.3:
@@ -246,7 +247,8 @@ def _gen_case(rng: random.Random) -> dict:
             if d not in shared:
                 shared.append(d)
                 ever.append(d)
-            if rng.random() < 0.55 and i + 1 < nshare:
+            if rng.random() < 0.55 and budget[0] > 0:
+                budget[0] -= 1
                 ops.append(['stats'])
                 ops.append(['scan', d] if rng.random() < 0.7 else ['scanall'])
         elif r < 0.45:
@@ -279,7 +281,7 @@ def _gen_case(rng: random.Random) -> dict:
                 if f not in disk and f not in dirs:
                     disk.append(f)
                     ops.append(['touch', f])
-    if rng.random() < 0.7:
+    if rng.random() < 0.7 and nshare < 8:
         ops.append(['scanall'])
         ops.append(['stats'])
     queries(rng.choice([3, 5, 8]))
@@ -768,7 +770,7 @@ class C07(Property):
 
     def _cases(self, seed, tier, widen):
         rng = random.Random(f'C07-{seed}')
-        n = (320 if tier == 'quick' else 5000) * widen
+        n = (320 if tier == 'quick' else 4000) * widen
         return list(WITNESSES) + [_gen_case(rng) for _ in range(n)]
 
     def correspondence(self, seed, tier, model_ok, widen=1):
